@@ -1080,7 +1080,12 @@ def run(ctx: core.Ctx):
         for b in BACKENDS:
             if b == 'caching-dir' and index % 5:
                 continue
-            jobs.append((case, b, ('raise', 'crash'), None))
+            # crash mode forks one child per position: every third (quick) / second (thorough) transaction gets it
+            modes = ('raise', 'crash') if index % (3 if ctx.quick else 2) == 0 else ('raise',)
+            jobs.append((case, b, modes, None))
+        if len(jobs) >= 800:
+            run_cases(ctx, jobs)
+            jobs = []
     run_cases(ctx, jobs)
     ctx.exhaustive_spaces.append('every failure position k of every generated transaction, raise and crash mode '
                                  '(%d transactions x backends)' % n)
